@@ -177,8 +177,8 @@ AndPaths(T, path) ==
 Whole(T, J, R) == LET r == Wrap(T, 1, <<>>, J, R, R) IN r
 
 \* ---- whitespace / keyword case vectors (C09) --------------------------------------------------
-WordLike(t) == t \in {"word","int","nint","float","wild","star","AND","OR","NOT","TO"}
-DigitStart(t) == t \in {"int","float"}
+WordLike(t) == t \in {"word","int","nint","float","ifloat","same","wild","star","AND","OR","NOT","TO"}
+DigitStart(t) == t \in {"int","float","ifloat"}
 \* may the two tokens be typed with nothing between them without changing the segmentation
 CanAbut(a, b) == /\ ~(WordLike(a) /\ WordLike(b))
                  /\ ~(WordLike(a) /\ b = "MINUS")
